@@ -356,6 +356,8 @@ impl Router {
             connection.events.events.pop_front();
         }
 
+        // A will registered by an earlier connection of this client id does not carry over
+        self.last_wills.remove(&client_id);
         if let Some(will) = connection.last_will.take() {
             self.last_wills.insert(
                 client_id.clone(),
